@@ -125,33 +125,49 @@ def degree_map(f):
     return rec(f.ufl_element())
 
 
+def _samples(case, e, order, rep, K):
+    env0 = make_env(case, rep)
+    rng = np.random.default_rng([int(case["env_seed"]), rep, 18])
+    d = rng.normal(size=env0.geo.tdim)
+    d = 0.45 * d / np.linalg.norm(d)
+    s = np.cos(np.pi * (np.arange(K) + 0.5) / K)
+    vals = []
+    for sk in s:
+        env = Env(env0.geo, env0.X + sk * d, facet=env0.facet, weight=env0.weight, seed=env0.seed, mode="poly", pdeg=PDEG)
+        env.degree_of = degree_map
+        I = Interp(env, order=order)
+        with np.errstate(all="ignore"):
+            v = I.value(e)
+        vals.append(np.ravel(v))
+    V = np.array(vals, dtype=float)  # (K, ncomp)
+    if not np.all(np.isfinite(V)):
+        raise Discard("illcond:nonfinite")
+    return s, V
+
+
+def _residual(s, V, deg):
+    coef = np.polynomial.chebyshev.chebfit(s, V, int(deg))
+    return float(np.max(np.abs(np.polynomial.chebyshev.chebval(s, coef).T - V)))
+
+
 def underestimated(case, e, est, order):
-    """True iff no polynomial of degree `est` reproduces e along a random line (decided on two lines)."""
+    """True iff no polynomial of degree `est` reproduces e along a random line although some polynomial of degree <= 16
+    does (decided on two lines).  Samples that no polynomial of degree <= 16 reproduces are rounding noise of a quantity
+    that vanishes identically (e.g. the determinant of a rank-deficient Piola-mapped tensor on a manifold): inconclusive."""
     for rep in range(2):
-        env0 = make_env(case, rep)
-        rng = np.random.default_rng([int(case["env_seed"]), rep, 18])
-        d = rng.normal(size=env0.geo.tdim)
-        d = 0.45 * d / np.linalg.norm(d)
-        K = int(est) + 9
-        s = np.cos(np.pi * (np.arange(K) + 0.5) / K)
-        vals = []
-        for sk in s:
-            env = Env(env0.geo, env0.X + sk * d, facet=env0.facet, weight=env0.weight, seed=env0.seed, mode="poly", pdeg=PDEG)
-            env.degree_of = degree_map
-            I = Interp(env, order=order)
-            with np.errstate(all="ignore"):
-                v = I.value(e)
-            vals.append(np.ravel(v))
-        V = np.array(vals, dtype=float)  # (K, ncomp)
-        if not np.all(np.isfinite(V)):
-            raise Discard("illcond:nonfinite")
+        s, V = _samples(case, e, order, rep, int(est) + 9)
         scale = float(np.max(np.abs(V)))
         if scale < 1e-13:
             continue
-        coef = np.polynomial.chebyshev.chebfit(s, V, int(est))
-        res = np.polynomial.chebyshev.chebval(s, coef).T - V
-        if float(np.max(np.abs(res))) > 1e-7 * scale:
-            return True, float(np.max(np.abs(res)) / scale)
+        res = _residual(s, V, est)
+        if res > 1e-7 * scale:
+            if est >= 16:
+                continue
+            s2, V2 = _samples(case, e, order, rep, 27)
+            scale2 = float(np.max(np.abs(V2)))
+            if scale2 < 1e-13 or _residual(s2, V2, 16) > 1e-7 * scale2:
+                continue  # not a polynomial to working precision
+            return True, res / scale
     return False, 0.0
 
 
@@ -225,6 +241,10 @@ def check_case(case):
         under, res = underestimated(case, expr, est, order)
         if under:
             td = true_degree(case, expr, order)
+            if td > 16:
+                # no polynomial of degree <= 16 reproduces the samples: the values are rounding noise of a quantity that
+                # vanishes identically (e.g. det of a rank-deficient Piola-mapped tensor on a manifold) -- inconclusive
+                raise Discard("illcond:not a polynomial to working precision")
             raise Violation(f"{what} = {est} but the integrand has degree {td} (fit residual {res:.2g})",
                             {"kind": "underestimate", "estimate": int(est), "true": int(td), "which": what.split('(')[0]})
     td = true_degree(case, e, order)
